@@ -96,6 +96,9 @@ type Sched struct {
 	Crash      string
 	CrashFrame string
 	EngineErr  string
+	Livelock   string // set instead of EngineErr when the step cap is hit while a sole library thread keeps running
+	soleLib    int    // consecutive scheduling points at which the only enabled thread was one library thread
+	soleLibT   *Thread
 	closedL    []unsafe.Pointer
 	Clock      int64
 	Armed      int
@@ -202,6 +205,12 @@ func (s *Sched) schedule(t *Thread) {
 		s.end(t)
 		return
 	}
+	if len(en) == 1 && en[0].Lib && !en[0].Env {
+		s.soleLib++
+		s.soleLibT = en[0]
+	} else {
+		s.soleLib = 0
+	}
 	next := en[s.decide(len(en), t, curEn, false)]
 	if s.ended {
 		s.end(t)
@@ -245,7 +254,13 @@ func (s *Sched) decide(n int, t *Thread, curEn, env bool) int {
 		s.recordState()
 	}
 	if len(s.Points) > s.MaxSteps {
-		s.EngineErr = "step cap exceeded"
+		if s.soleLib >= s.MaxSteps/4 && s.soleLibT != nil {
+			// not a limit of the engine: one library goroutine has been the only thread able to move for thousands of
+			// steps and does not come to rest (nobody else can change what it is waiting for): a livelock
+			s.Livelock = "library goroutine " + s.soleLibT.Name + " keeps running alone without coming to rest"
+		} else {
+			s.EngineErr = "step cap exceeded"
+		}
 		s.ended = true
 		s.cur = nil
 		s.endc <- struct{}{}
@@ -492,6 +507,7 @@ type Exec struct {
 	Crash       string
 	CrashFrame  string
 	EngineErr   string
+	Livelock    string
 	Blocked     []Blk // threads not done at the end
 	UserBlocked int
 	LibAlive    int // library threads (not env) still alive at the end
@@ -547,7 +563,7 @@ func Run(prefix, expectN []int32, setup func(s *Sched), body func()) *Exec {
 		fmt.Printf("ERROR engine watchdog: execution did not end within %v\n%s\n", OptWatchdog, buf[:n])
 		exitProcess(2)
 	}
-	x := &Exec{Points: s.Points, Crash: s.Crash, CrashFrame: s.CrashFrame, EngineErr: s.EngineErr, Diverged: s.Diverged, Threads: len(s.threads)}
+	x := &Exec{Points: s.Points, Crash: s.Crash, CrashFrame: s.CrashFrame, EngineErr: s.EngineErr, Livelock: s.Livelock, Diverged: s.Diverged, Threads: len(s.threads)}
 	for _, t := range s.threads {
 		if !t.done {
 			x.Blocked = append(x.Blocked, Blk{ID: t.ID, Name: t.Name, Site: t.Site, Kind: t.kind.String(), Lib: t.Lib, Env: t.Env})
